@@ -1089,6 +1089,12 @@ class Executor:
                 return Ptr(0, x)
             return x
         a, b = norm(a), norm(b)
+        if isinstance(a, Undef) or isinstance(b, Undef):
+            # comparison involving an uninitialised pointer (e.g. the internals of a std::string whose
+            # constructor is stubbed out): nondeterministic outcome
+            self.fresh_cnt += 1
+            st.event('undef-pointer-compare', where=self.where(st))
+            return z3.Bool('undefcmp!%d' % self.fresh_cnt)
         if not isinstance(a, Ptr) or not isinstance(b, Ptr):
             raise Unsupported('ptrcmp %r %r' % (a, b))
         if a.rid == b.rid:
@@ -1462,12 +1468,15 @@ class Executor:
                 if L is None:
                     raise Unsupported('unwind dest without landingpad')
                 sel = self.match_clauses(st, L)
+                if sel == 0 and st.data.get('fast_throw_depth') == len(st.frames):
+                    sel = None      # cleanup of message-building code that was skipped
                 if sel is not None:
                     st.data['lp_sel'] = sel
                     self.jump(st, fr, I['unwind'])
                     return
             # pop frame
             fr = st.frames.pop()
+            st.data.pop('fast_throw_depth', None)
             for rid in fr.allocas:
                 st.mem.pop(rid, None)
         st.outcome = ('throw', st.exc[0])
